@@ -101,6 +101,11 @@ def run(ctx):
     ctx.cov["callback_exclusion_pairs"] = len(ex)
     for clause, idxs in sorted(ebad.items()):
         pairs = sorted(set((ex[i]["f"], ex[i]["w"]) for i in idxs))
+        if pairs[0][1] == "store-after":
+            vf.report(ctx, clause, {"f": pairs[0][0]},
+                      "%d case(s): what %s returned is not a result but a window into the map - a store made after it had returned shows up in it (cases: %s)" % (len(pairs), pairs[0][0], pairs[:6]),
+                      {"records": [ex[i] for i in idxs][:10], "cmd": "bin/check C14 --tier %s" % ctx.tier})
+            continue
         vf.report(ctx, clause, {"f": pairs[0][0]},
                   "%d pair(s): while the callback of %s was running on a key, a concurrent %s of that key returned (pairs: %s)" % (len(pairs), pairs[0][0], pairs[0][1], pairs[:8]),
                   {"records": [ex[i] for i in idxs][:10], "cmd": "bin/check C14 --tier %s" % ctx.tier})
